@@ -344,11 +344,31 @@ func PanicClass(v string) string {
 		}
 		b.WriteByte(v[i])
 	}
-	v = b.String()
+	v = stripQuoted(b.String())
 	if len(v) > 140 {
 		v = v[:140]
 	}
 	return v
+}
+
+// stripQuoted replaces the content of single- and double-quoted substrings (ids, values) by "?".
+func stripQuoted(s string) string {
+	var b strings.Builder
+	for i := 0; i < len(s); i++ {
+		c := s[i]
+		if c == '\'' || c == '"' {
+			j := strings.IndexByte(s[i+1:], c)
+			if j >= 0 && j < 80 {
+				b.WriteByte(c)
+				b.WriteByte('?')
+				b.WriteByte(c)
+				i += j + 1
+				continue
+			}
+		}
+		b.WriteByte(c)
+	}
+	return b.String()
 }
 
 // stripTypeArgs replaces every bracketed type-argument list by [...] (they may contain spaces and parentheses).
